@@ -8,6 +8,7 @@ import Driver.OpsDeform
 import Driver.OpsGui
 import Driver.OpsMask
 import Driver.OpsNoise
+import Driver.OpsSim
 import Driver.OpsSweep
 open Panqec
 
@@ -16,7 +17,7 @@ open Panqec
     (`none` = not my op); the first that answers wins. -/
 
 def handlers : List (List String → Option String) :=
-  [Drv.handleBatch, Drv.handleBits, Drv.handleCli, Drv.handleCode, Drv.handleDeform, Drv.handleGui, Drv.handleMask, Drv.handleNoise, Drv.handleSweep]
+  [Drv.handleBatch, Drv.handleBits, Drv.handleCli, Drv.handleCode, Drv.handleDeform, Drv.handleGui, Drv.handleMask, Drv.handleNoise, Drv.handleSim, Drv.handleSweep]
 
 def handleToks (toks : List String) : String :=
   match handlers.findSome? (fun h => h toks) with
